@@ -18,6 +18,16 @@ CLAIMED = {
         note="trusted: Coq kernel, translator (expression translation of three const fns, structural flags of connect()), Model/IpStd.v "
              "(std predicate ranges), Model/ConnectPolicy.v, extraction + driver, harness doors; resolver and connect(2) are environment",
         design="DESIGN.md 5 C03"),
+    "C04": dict(
+        text="Coq theorems over the model of rules.rs / Core::evaluate_connection_rules: the verdict is the action of the first matching "
+             "rule in order (Allow if none), Deny when a pattern rule exists and no random is available, a well-formed rule matches iff "
+             "the documented CIDR-range / prefix / bitwise-mask condition holds, malformed fields never match, and an IPv4 peer gets the "
+             "same verdict as a.b.c.d and as ::ffff:a.b.c.d for every rule list; early enforcement rests on regenerated call-order facts "
+             "of core.rs; tied by a differential run of the public RulesEngine and the evaluate_connection_rules door against the "
+             "extracted model and an independent documentation oracle",
+        note="trusted: Coq kernel, Model/Rules.v, translator facts (RulesFacts.v), extraction + driver, harness; IpNet/hex parsing is library "
+             "code covered by the text-rendering diff; TLS/QUIC accept I/O not driven",
+        design="DESIGN.md 5 C04"),
     "C06": dict(
         text="Coq theorems over the Gallina model of http_udp_codec.rs: for every record sequence and EVERY segmentation the "
              "decoder delivers exactly the PROTOCOL.md 6.3 datagrams of the accepted records and skips rejected ones whole "
